@@ -604,7 +604,10 @@ class TriggerManager(AoE2Object):
         # Find and update all (de)activation effect trigger references
         for trigger in self.triggers:
             for effect in get_activation_effects(trigger):
-                if effect.trigger_id in index_changes:
+                if effect.trigger_id in removing_trigger_ids:
+                    # The referenced trigger is gone: reset (like import_triggers does for missing triggers)
+                    effect.trigger_id = -1
+                elif effect.trigger_id in index_changes:
                     effect.trigger_id = index_changes[effect.trigger_id]
 
         self.trigger_display_order = new_display_order
